@@ -7,6 +7,7 @@ package main
 import (
 	"errors"
 	"fmt"
+	"strings"
 
 	flyt "github.com/mark3labs/flyt"
 	"github.com/mark3labs/flyt/zzvrt/core"
@@ -22,6 +23,9 @@ var (
 	evPtr   = &payloadT{"exec"}
 	evMap   = map[string]any{"r": []int{1}}
 	fvPtr   = &payloadT{"fallback"}
+	junkPtr = &payloadT{"junk-from-failed-attempt"}
+	pvPtr2  = &payloadT{"prep-second-run"}
+	evPtr2  = &payloadT{"exec-second-run"}
 	errPrep = errors.New("prep-failed")
 	errPost = errors.New("post-failed")
 	errFb   = errors.New("fallback-failed")
@@ -37,6 +41,19 @@ var (
 // fullMenu: the complete per-phase answer alphabet of C01.
 func fullMenu(prepVals []any) func(h *H, c call) []answer {
 	return func(h *H, c call) []answer {
+		if h.runNo > 0 {
+			// later runs on the same node object: different payloads, smaller alphabet
+			switch c.ph {
+			case pPrep:
+				return []answer{{val: pvPtr2}, {err: errPrep}}
+			case pExec:
+				return []answer{{val: evPtr2}, {val: junkPtr, err: errExec[c.attempt]}}
+			case pFallback:
+				return []answer{{val: fvPtr}, {err: errFb}}
+			default:
+				return []answer{{action: "y"}}
+			}
+		}
 		switch c.ph {
 		case pPrep:
 			var m []answer
@@ -45,7 +62,8 @@ func fullMenu(prepVals []any) func(h *H, c call) []answer {
 			}
 			return append(m, answer{err: errPrep})
 		case pExec:
-			return []answer{{val: evPtr}, {err: errExec[c.attempt]}, {val: nil}, {val: evMap}}
+			// a failing attempt also returns a (junk) value: it must never reach a later phase
+			return []answer{{val: evPtr}, {val: junkPtr, err: errExec[c.attempt]}, {val: nil}, {val: evMap}}
 		case pFallback:
 			return []answer{{val: fvPtr}, {err: errFb}, {val: nil}}
 		default:
@@ -82,6 +100,10 @@ func placeName(p int) string {
 
 // lifecycleScenario: node under test `n` placed per `place`, answers from menu.
 func lifecycleScenario(name string, n *spec, place int, menu func(h *H, c call) []answer) Scenario {
+	return lifecycleScenarioRuns(name, n, place, menu, 1)
+}
+
+func lifecycleScenarioRuns(name string, n *spec, place int, menu func(h *H, c call) []answer, runs int) Scenario {
 	var h *H
 	root := n
 	var first *spec
@@ -100,12 +122,19 @@ func lifecycleScenario(name string, n *spec, place int, menu func(h *H, c call) 
 		a, err := flyt.Run(h.ctx, node, h.store)
 		core.Logf("Run returned (%q, %v)", a, err)
 		h.finish(a, err)
+		for r := 1; r < runs; r++ {
+			// the SAME node objects are run again: nothing may carry over
+			h.nextRun()
+			a, err := flyt.Run(h.ctx, node, h.store)
+			core.Logf("run %d returned (%q, %v)", r+1, a, err)
+			h.finish(a, err)
+		}
 	}
 	check := stdCheck(func() string {
 		if h == nil {
 			return "?"
 		}
-		return h.traceString()
+		return strings.Join(append(append([]string(nil), h.hist...), h.traceString()), " | ")
 	})
 	return Scenario{Name: name, Bound: 0, Body: body, Check: check}
 }
@@ -134,6 +163,9 @@ func genC01(tier string) []Scenario {
 					sp := &spec{id: "n", kind: kind, n: n, fb: fb}
 					name := fmt.Sprintf("lifecycle kind=%s N=%d fallback=%v place=%s", kindNames[kind], n, fb, placeName(place))
 					out = append(out, lifecycleScenario(name, sp, place, fullMenu(pv)))
+					if n <= 2 && place != placeOnlyInFlow {
+						out = append(out, lifecycleScenarioRuns(name+" runs=2(same node object)", sp, place, fullMenu(pv[:2]), 2))
+					}
 				}
 			}
 		}
